@@ -49,10 +49,14 @@ CONFIGS: list[dict[str, Any]] = [
     {"name": "and-events", "triggers": [("T", "AND", ["e1", "e2"], "static")]},
     {"name": "and-event-status", "triggers": [("T", "AND", ["e1", "st"], "event")]},
     {"name": "or-event-status-static", "triggers": [("T", "OR", ["e1", "st"], "static")]},
+    {"name": "registered-status", "triggers": [("T", "OR", ["reg"], "status")]},
+    # one condition alone, the builder's default logic left untouched
+    {"name": "single-event-default-logic", "triggers": [("T", "DEFAULT", ["e1"], "event")]},
+    {"name": "single-status-default-logic", "triggers": [("T", "DEFAULT", ["st"], "status")]},
     {"name": "two-triggers-one-condition", "triggers": [("T", "OR", ["e1"], "event"), ("T2", "OR", ["e1"], "event")]},
     {"name": "or-and-share-condition", "triggers": [("T", "OR", ["e1"], "event"), ("T2", "AND", ["e1", "e2"], "static")]},
 ]
-KIND_OF = {"e1": "event", "e2": "event", "st": "status", "res": "result", "exc": "exception"}
+KIND_OF = {"e1": "event", "e2": "event", "st": "status", "reg": "status", "res": "result", "exc": "exception"}
 
 
 def build(app: Any, cfg: dict) -> dict[str, Any]:
@@ -68,11 +72,14 @@ def build(app: Any, cfg: dict) -> dict[str, Any]:
                 b.on_event(c)
             elif c == "st":
                 b.on_status(t["src1"], "success")
+            elif c == "reg":
+                b.on_status(t["src1"], "registered")
             elif c == "res":
                 b.on_any_result(t["src1"])
             elif c == "exc":
                 b.on_exception(t["src1"])
-        b.with_logic(CompositeLogic.AND if logic == "AND" else CompositeLogic.OR)
+        if logic != "DEFAULT":
+            b.with_logic(CompositeLogic.AND if logic == "AND" else CompositeLogic.OR)
         if argmode == "static":
             b.with_args_static({"k": "static", "v": "static"})
         elif argmode == "event":
@@ -106,7 +113,7 @@ class TModel:
         for ti, (name, logic, conds, argmode) in enumerate(self.cfg["triggers"]):
             mine = [p for p in self.pending if p["cond"] in conds and (ti, p["id"]) not in self.handled]
             self.max_pending_for_a_trigger = max(self.max_pending_for_a_trigger, len(mine))
-            if logic == "OR":
+            if logic == "OR" or (logic == "DEFAULT" and len(conds) == 1):
                 for p in mine:
                     acc = {"static"} if argmode == "static" else {p["arg"]}
                     out.setdefault(name, []).append(acc)
@@ -140,7 +147,7 @@ def sem_shard(kind: str, cfg_idx: int, seed: int, examples: int, known: list[str
     part = Part("semantics", SEM_RULE)
     rep = Reporter(part, known)
     shared: dict[str, Any] = {}
-    ops = st.lists(st.sampled_from(["e1", "e1", "e2", "ok", "ok", "fail", "loop", "loop"]), min_size=2, max_size=14)
+    ops = st.lists(st.sampled_from(["e1", "e1", "e2", "ok", "ok", "fail", "batch", "loop", "loop"]), min_size=2, max_size=14)
 
     @hypothesis.seed(seed)
     @make_settings(examples)
@@ -165,8 +172,14 @@ def sem_shard(kind: str, cfg_idx: int, seed: int, examples: int, known: list[str
             if op in ("e1", "e2"):
                 app.trigger.emit_event(op, {"n": n})
                 model.add(op, ("ev", n), n)
+            elif op == "batch":
+                # a parallelize batch with two identical calls: three distinct invocations, three REGISTERED occurrences
+                grp = t["src1"].parallelize([(n,), (n,), (n + 0.5,)])
+                for j, gi in enumerate(grp.invocations):
+                    model.add("reg", ("reg", n, j), gi.arguments.kwargs.get("x"))
             elif op in ("ok", "fail"):
                 inv = t["src1"](n)
+                model.add("reg", ("reg", n, "single"), n)
                 app.orchestrator.set_invocation_status(inv.invocation_id, S.PENDING, A)
                 app.orchestrator.set_invocation_status(inv.invocation_id, S.RUNNING, A)
                 if op == "ok":
